@@ -280,6 +280,68 @@ pub fn g_grid(o: &mut Out, types: &[&str]) {
     }
 }
 
+/// exponent *texts* of every length: 1..=45 digits with leading 1 or 9, around 2^31, 2^32, 2^63, 2^64, 2^127, 2^128, both
+/// signs, plain and zero padded — the exponent goes through `i32`, `u32`/`i64`/`i128` fast paths and big-integer parsing
+pub fn g_exp_texts(o: &mut Out, types: &[&str]) {
+    let mut es: Vec<String> = vec![];
+    for len in 1..=45usize {
+        for lead in ['1', '9'] {
+            es.push(format!("{}{}", lead, "0".repeat(len - 1)));
+            es.push(format!("{}{}", lead, "9".repeat(len - 1)));
+        }
+    }
+    for pow in [31u32, 32, 63, 64, 127, 128] {
+        let base = BigInt::from(1) << pow;
+        for d in -2i64..=2 {
+            es.push((&base + BigInt::from(d)).to_string());
+            // just below the power, by about one format's exponent range (where a narrowing cast lands back in range)
+            es.push((&base - BigInt::from(24617 + d)).to_string());
+        }
+    }
+    for ty in types {
+        for e in &es {
+            for body in ["1", "7.5"] {
+                for sign in ["", "-"] {
+                    o.put(&format!("exp-text/{}", ty), format!("parse_str {} {}", ty, tx(&format!("{}e{}{}", body, sign, e))));
+                }
+            }
+            o.put(&format!("exp-text/{}", ty), format!("parse_str {} {}", ty, tx(&format!("1E+000{}", e))));
+        }
+    }
+}
+
+/// finite values held in *wide* BigBitstring buffers (192 bits … 3200 bits): small coefficients, full coefficients,
+/// exponents at zero, at the edges of the width and inside; the decoders and conversions must not depend on the width
+pub fn wide_big_patterns(o: &mut Out) -> Vec<Vec<u8>> {
+    let mut v = vec![];
+    for n in [6usize, 7, 8, 13, 16, 29, 30, 31, 32, 33, 61, 62, 63, 64, 65, 100] {
+        let f = Fmt { n };
+        let p = f.p();
+        let coefs: Vec<String> = vec!["0".into(), "1".into(), "255".into(), "65536".into(), "9".repeat(p), format!("1{}", "0".repeat(p - 1)), format!("5{}", "0".repeat(20)), (0..p.min(40)).map(|_| (b'0' + o.rng.below(10) as u8) as char).collect()];
+        let mut qs: Vec<BigInt> = vec![BigInt::from(0), BigInt::from(-1), BigInt::from(-20), BigInt::from(3), BigInt::from(-(p as i64) + 1), f.qmin(), f.qmax(), f.qmin() + BigInt::from(5), f.qmax() - BigInt::from(5), f.qmax() / BigInt::from(2)];
+        // exponents around the i32 and i64 limits, where a narrower exponent representation would saturate or wrap
+        for lim in [BigInt::from(i32::MAX), BigInt::from(i32::MIN), BigInt::from(i64::MAX), BigInt::from(i64::MIN)] {
+            for d in [-40i64, -2, -1, 0, 1, 2] {
+                let q = &lim + BigInt::from(d);
+                if q >= f.qmin() && q <= f.qmax() {
+                    qs.push(q);
+                }
+            }
+        }
+        for c in &coefs {
+            for q in &qs {
+                // `to_<int>` of a *zero* multiplies by ten once per unit of a positive exponent (it cannot overflow):
+                // 2^31 iterations for an exponent at the i32 limit. Not a property, but it would stall the run.
+                if c.bytes().all(|d| d == b'0') && *q > BigInt::from(100_000) && *q <= BigInt::from(i32::MAX) {
+                    continue;
+                }
+                v.push(enc_fin(f, o.rng.chance(1, 3), c.as_bytes(), q));
+            }
+        }
+    }
+    v
+}
+
 /// the four format edges of every width up to `nmax`, through BigBitstring (and Bitstring below 160 bits)
 pub fn g_big_edges(o: &mut Out, nmax: usize) {
     for n in 1..=nmax {
@@ -674,6 +736,22 @@ pub fn g_long_valid(o: &mut Out, types: &[&str]) {
     }
 }
 
+/// junk around / inside numerals delivered fragment by fragment by a `Display` that ignores write errors: no value may come out
+pub fn g_swallow_invalid(o: &mut Out, types: &[&str]) {
+    let xs = ["$12.50", "-x1", " 1", "x", "1x", "x1", "1x2", "1.-5", "nan(1)2", "infx", "+-1", "1e+x5", "12é", "é1", "1 2", "-", "1e", "nan(", "0x10", "--1", "i1", "n7", "s9"];
+    for s in xs {
+        let chars: Vec<String> = s.chars().map(|c| tx(&c.to_string())).collect();
+        for ty in types {
+            let cap = text_cap(ty).map_or("-".to_string(), |c| c.to_string());
+            o.put(&format!("swallow-invalid/{}", ty), format!("parse_fmt {} {} {} swallow", ty, cap, chars.join(",")));
+            o.put(&format!("swallow-invalid/{}", ty), format!("parse_fmt {} {} {} swallow", ty, cap, tx(s)));
+            if chars.len() >= 2 {
+                o.put(&format!("swallow-invalid/{}", ty), format!("parse_fmt {} {} {},{} swallow", ty, cap, chars[0], chars[1..].iter().map(|c| c.as_str()).collect::<Vec<_>>().join("")));
+            }
+        }
+    }
+}
+
 /// digits after a closed payload, second points, signs inside: longer targeted invalid strings
 pub fn g_targeted_invalid(o: &mut Out) {
     let xs = [
@@ -809,13 +887,24 @@ fn fragmentations(o: &mut Out, ty: &str, cap: &str, text: &str, faults: bool) {
     }
 }
 
-pub const FRAG_TEXTS: [&str; 52] = [
+pub const FRAG_TEXTS: [&str; 58] = [
+    "00000001", "-00000001", "01234567", "00.00001", "nan(007)", "0000000000000017",
     "ı", "1ť5", "ŉnf", "ĭ1", "1Į5", "ŮaN", "1ī", "２",
     "0", "-1", "+12", "1.5", "-12.34e-5", "1e+5", "1E5", "00.10e01", "123456789012", "inf", "-Infinity", "nan", "-sNaN(12)", "nan()", "snan(0)",
     "x", "1x", "x2", "1x2", "1.-5", "1.+5", "1..2", "1e5e", "e5", "1e", "-", "+-1", "", "nan(1)2", "infx", "in", "sna", "nan(", "1.2.3", "12é", "é1", " 1", "1 ", "-.5", "5.", "+", "1e+", "nan(12", "9.99e+99",
 ];
 
 pub fn g_frag(o: &mut Out, types: &[&str]) {
+    if types.contains(&"big") {
+        // no text capacity at all for the growable buffer: texts beyond 2^16 bytes, whole and in two fragments
+        for len in [65535usize, 65536, 70001] {
+            let digits = "7".repeat(len);
+            o.put("frag-long/big", format!("parse_fmt big - {} -", tx(&digits)));
+            let padded = format!("15e-{}3", "0".repeat(len));
+            o.put("frag-long/big", format!("parse_fmt big - {},{} -", tx(&padded[..len / 2]), tx(&padded[len / 2..])));
+            o.put("frag-long-str/big", format!("parse_str big {}", tx(&padded)));
+        }
+    }
     for ty in types {
         let cap = text_cap(ty).map_or("-".to_string(), |c| c.to_string());
         for t in FRAG_TEXTS {
@@ -1291,6 +1380,12 @@ pub fn nan_payload_patterns(o: &mut Out) -> Vec<Vec<u8>> {
             payloads.push("9".repeat(k + 1));
             payloads.push(format!("{}", 1 + o.rng.below(9)) + &"5".repeat(k));
         }
+        for k in 0..64u32 {
+            for d in [0u128, 1] {
+                payloads.push(((1u128 << k) + d).to_string());
+                payloads.push(((1u128 << k) + (1u128 << (k / 2)) + d).to_string());
+            }
+        }
         for pl in payloads {
             if pl.len() > f.p() - 1 {
                 continue;
@@ -1331,7 +1426,7 @@ pub fn g_consts(o: &mut Out) {
                     // every spelling of the exponent, through both entry points: the limit must not depend on it
                     let x = base + d;
                     let (sg, mag) = if x < 0 { ("-", -x) } else { ("", x) };
-                    let mut spellings = vec![format!("E{}{}", sg, mag), format!("e{}0{}", sg, mag), format!("E{}000{}", sg, mag)];
+                    let mut spellings = vec![format!("E{}{}", sg, mag), format!("e{}0{}", sg, mag), format!("E{}000{}", sg, mag), format!("e{}{}{}", sg, "0".repeat(9), mag), format!("e{}{}{}", sg, "0".repeat(14), mag)];
                     if x >= 0 {
                         spellings.extend([format!("e+{}", mag), format!("E+{}", mag), format!("e+00{}", mag)]);
                     }
